@@ -77,6 +77,7 @@ type chooser struct {
 	seed uint64
 	salt string
 	pct  int
+	nils *int // if set, counts the nil elements put inside fed containers
 }
 
 func (c chooser) chosen(path string) bool { return int(mix(c.seed, c.salt+"?", path)%100) < c.pct }
@@ -122,7 +123,10 @@ func fillGeneric(v reflect.Value, path string, c chooser) int {
 			if c.chosen(p) {
 				val := shape.MakeValue(sf.Type, c.value(p), plain)
 				f.Set(val)
-				sprinkleNils(f, &nilRng{s: c.value(p) ^ 0x9e3779b97f4a7c15}, true)
+				k := sprinkleNils(f, &nilRng{s: c.value(p) ^ 0x9e3779b97f4a7c15}, true)
+				if c.nils != nil {
+					*c.nils += k
+				}
 				n++
 			}
 		case sf.Type.Kind() == reflect.Struct:
@@ -154,27 +158,28 @@ func (r *nilRng) next() uint64 {
 // a null inside a list or map is valid input in every format that can spell
 // it.  The leaf itself (top=true) is left alone: whether a leaf is set is the
 // chooser's decision.  Pure function of (value, seed).
-func sprinkleNils(v reflect.Value, r *nilRng, top bool) {
+func sprinkleNils(v reflect.Value, r *nilRng, top bool) (n int) {
 	switch v.Kind() {
 	case reflect.Pointer:
 		if !v.IsNil() {
-			sprinkleNils(v.Elem(), r, false)
+			n += sprinkleNils(v.Elem(), r, false)
 		}
 	case reflect.Slice, reflect.Array:
 		if v.Kind() == reflect.Slice && v.IsNil() {
-			return
+			return 0
 		}
 		for i := 0; i < v.Len(); i++ {
 			e := v.Index(i)
 			if e.Kind() == reflect.Pointer && e.CanSet() && r.next()%3 == 0 {
 				e.Set(reflect.Zero(e.Type()))
+				n++
 				continue
 			}
-			sprinkleNils(e, r, false)
+			n += sprinkleNils(e, r, false)
 		}
 	case reflect.Map:
 		if v.IsNil() {
-			return
+			return 0
 		}
 		keys := v.MapKeys()
 		sort.Slice(keys, func(i, j int) bool { return fmt.Sprint(keys[i]) < fmt.Sprint(keys[j]) })
@@ -183,8 +188,9 @@ func sprinkleNils(v reflect.Value, r *nilRng, top bool) {
 			if e.Kind() == reflect.Pointer {
 				if r.next()%3 == 0 {
 					v.SetMapIndex(k, reflect.Zero(e.Type()))
+					n++
 				} else if !e.IsNil() {
-					sprinkleNils(e.Elem(), r, false)
+					n += sprinkleNils(e.Elem(), r, false)
 				}
 				continue
 			}
@@ -192,20 +198,21 @@ func sprinkleNils(v reflect.Value, r *nilRng, top bool) {
 			if e.Kind() == reflect.Struct || e.Kind() == reflect.Slice || e.Kind() == reflect.Array || e.Kind() == reflect.Map {
 				c := reflect.New(e.Type()).Elem()
 				c.Set(e)
-				sprinkleNils(c, r, false)
+				n += sprinkleNils(c, r, false)
 				v.SetMapIndex(k, c)
 			}
 		}
 	case reflect.Struct:
 		if shape.IsTextStruct(v.Type()) {
-			return
+			return 0
 		}
 		for i := 0; i < v.NumField(); i++ {
 			if v.Type().Field(i).IsExported() && v.Field(i).CanSet() {
-				sprinkleNils(v.Field(i), r, false)
+				n += sprinkleNils(v.Field(i), r, false)
 			}
 		}
 	}
+	return n
 }
 
 // ---- rendering a value as the text a string-typed source expects ---------------
@@ -381,7 +388,7 @@ func buildCase(c TypesCase) (T, pt reflect.Type, tmpl reflect.Value, v *vrt.Verd
 		return nil, nil, reflect.Value{}, &d
 	}
 	tmpl = reflect.New(T)
-	fillGeneric(tmpl.Elem(), "", chooser{c.Fill, "default", c.DefPct})
+	fillGeneric(tmpl.Elem(), "", chooser{seed: c.Fill, salt: "default", pct: c.DefPct})
 	pt = ptrify.Pointerify(T, tmpl.Elem())
 	return T, pt, tmpl, nil
 }
@@ -398,7 +405,7 @@ func runTypesEnv(c TypesCase) vrt.Verdict {
 	if nerr != nil {
 		o.labels = append(o.labels, "names-unavailable")
 	}
-	ch := chooser{c.Fill, "feed", c.SetPct}
+	ch := chooser{seed: c.Fill, salt: "feed", pct: c.SetPct}
 	vars := map[string]string{}
 	for _, l := range leaves {
 		if !ch.chosen(l.Path) {
@@ -468,7 +475,7 @@ func runTypesFlag(c TypesCase) vrt.Verdict {
 	if nerr != nil {
 		o.labels = append(o.labels, "names-unavailable")
 	}
-	ch := chooser{c.Fill, "feed", c.SetPct}
+	ch := chooser{seed: c.Fill, salt: "feed", pct: c.SetPct}
 	var got reflect.Value
 	var err error
 	var args []string
@@ -540,6 +547,7 @@ type feeder struct {
 	pre     []transform.Mangler // manglers the real decoder applies itself before reading
 	text    []byte
 	fed     int
+	nils    int
 	encErr  error
 }
 
@@ -551,7 +559,9 @@ func (f *feeder) Decode(_ io.Reader, typ *dials.Type) (reflect.Value, error) {
 		}
 	}
 	v := reflect.New(vt).Elem()
-	f.fed = fillGeneric(v, "", f.ch)
+	ch := f.ch
+	ch.nils = &f.nils
+	f.fed = fillGeneric(v, "", ch)
 	b, err := func() (b []byte, err error) {
 		defer func() {
 			if r := recover(); r != nil {
@@ -613,7 +623,7 @@ func runTypesDecoder(c TypesCase) vrt.Verdict {
 	if dv != nil {
 		return *dv
 	}
-	f := &feeder{ch: chooser{c.Fill, "feed", c.SetPct}}
+	f := &feeder{ch: chooser{seed: c.Fill, salt: "feed", pct: c.SetPct}}
 	switch c.Source {
 	case "json":
 		f.inner, f.marshal = &jsondec.Decoder{}, marshalJSON
@@ -641,6 +651,9 @@ func runTypesDecoder(c TypesCase) vrt.Verdict {
 	o.fed = f.fed
 	what := fmt.Sprintf("%s decoder (chain %s) on %s with input %q", c.Source, c.Chain, pt, clipBytes(f.text))
 	o.viol, o.isErr = judge(what, pi, hung, got, err, pt)
+	if f.nils > 0 {
+		o.labels = append(o.labels, "nil-elements-fed")
+	}
 	if f.encErr != nil && o.viol == nil {
 		o.labels = append(o.labels, "encoder-rejected")
 		o.fed = 0
@@ -711,9 +724,13 @@ func runTypesManglers(c TypesCase) vrt.Verdict {
 			return
 		}
 		if c.Chain == "stringcast" {
-			o.fed = fillStringCast(mv, pt, chooser{c.Fill, "feed", c.SetPct})
+			o.fed = fillStringCast(mv, pt, chooser{seed: c.Fill, salt: "feed", pct: c.SetPct})
 		} else {
-			o.fed = fillGeneric(mv, "", chooser{c.Fill, "feed", c.SetPct})
+			nils := 0
+			o.fed = fillGeneric(mv, "", chooser{c.Fill, "feed", c.SetPct, &nils})
+			if nils > 0 {
+				o.labels = append(o.labels, "nil-elements-fed")
+			}
 		}
 		stage = "ReverseTranslate"
 		got, err = tf.ReverseTranslate(mv)
@@ -798,7 +815,7 @@ func TestC16TypesPflag(t *testing.T) {
 func TestC16TypesDecoders(t *testing.T) {
 	vrt.Check(t, vrt.Prop[TypesCase]{
 		ID: "C16", Name: "types-decoders",
-		Rule: typesRuleCommon + "(plus arrays of named elements and slices / maps of structs). Decoder uniform over json, yaml, toml, cue; chain uniform over none, the ez chains (alias + SetSlice, alias + tag reformatting + SetSlice), AnonymousFlatten, TextUnmarshaler, YAML FlattenAnonymous. " +
+		Rule: typesRuleCommon + "(plus arrays of named elements, slices / maps of structs, and containers whose elements are pointers - []*time.Duration, map[string]*time.Duration, [2]*time.Duration, *[]time.Duration, []*int, map[string]*string, []*Level, []*Stamp, []DurRec ... - fed with nil elements in about a third of the slots). Decoder uniform over json, yaml, toml, cue; chain uniform over none, the ez chains (alias + SetSlice, alias + tag reformatting + SetSlice), AnonymousFlatten, TextUnmarshaler, YAML FlattenAnonymous. " +
 			"A harness decoder under the chain builds a seeded value of the type it is asked for, spells it with the format's own encoder and hands the text to the real decoder; " +
 			"oracle: Decode returns, without panic, either an error or a value of the pointerified type; non-trivial = named non-scalar leaf present and at least one leaf spelled; distinct = distinct case JSON",
 		Assumptions: append([]string{"a value the format's encoder refuses (e.g. complex numbers in JSON) counts as a trivial case (label encoder-rejected)"}, typesAssumptions...),
@@ -809,7 +826,7 @@ func TestC16TypesDecoders(t *testing.T) {
 func TestC16TypesManglers(t *testing.T) {
 	vrt.Check(t, vrt.Prop[TypesCase]{
 		ID: "C16", Name: "types-manglers",
-		Rule: typesRuleCommon + "(plus arrays of named elements and slices / maps of structs). Chain drawn from the shipped manglers and chains (DefaultFlatten, alias + flatten, AnonymousFlatten, SetSlice, TextUnmarshaler, the two ez chains, AnonymousFlatten + ez, TagCopying, StringCasting on its own, the time.Duration -> ParsingDuration substitution alone and with TagCopying as the JSON / Cue decoders run it); " +
+		Rule: typesRuleCommon + "(plus arrays of named elements, slices / maps of structs, and containers whose elements are pointers - []*time.Duration, map[string]*time.Duration, [2]*time.Duration, *[]time.Duration, []*int, map[string]*string, []*Level, []*Stamp, []DurRec ... - fed with nil elements in about a third of the slots). Chain drawn from the shipped manglers and chains (DefaultFlatten, alias + flatten, AnonymousFlatten, SetSlice, TextUnmarshaler, the two ez chains, AnonymousFlatten + ez, TagCopying, StringCasting on its own, the time.Duration -> ParsingDuration substitution alone and with TagCopying as the JSON / Cue decoders run it); " +
 			"the pointerified type is translated, the mangled value filled leaf by leaf with seeded values of the mangled field types (StringCasting: with the documented spelling of a seeded value of the ORIGINAL leaf type), and translated back; " +
 			"oracle: Translate and ReverseTranslate return, without panic, either an error or a value of the pointerified type; non-trivial = named non-scalar leaf present and at least one mangled leaf filled; distinct = distinct case JSON",
 		Assumptions: typesAssumptions,
